@@ -194,6 +194,13 @@ class Analyzer:
             st.env[k] = v
         return v
 
+    def new_text(self, st, path, chars):
+        """a string value at `path` with `chars` characters (its byte length is at least that)"""
+        self.counter += 1
+        self.havoc(st, path)
+        st.env[path + ("#chars",)] = chars
+        st.env[path + ("#text",)] = self.counter
+
     def havoc(self, st, pre):
         for k, _ in prefix_items(st.env, pre):
             del st.env[k]
@@ -526,10 +533,10 @@ class Analyzer:
                 v = self.operand_value(st, args[1]) if len(args) > 1 else None
                 st.env[P + ("#last",)] = v if isinstance(v, tuple) and v and v[0] == "collected" else ("unknown",)
             return True
-        if dfn == "core::iter::traits::iterator::Iterator::collect" and dest is not None:
-            v = self.operand_value(st, args[0]) if args else None
-            if isinstance(v, tuple) and v and v[0] == "drained":
-                st.env[dest] = ("collected", v[1])
+        if dfn == "core::iter::traits::iterator::Iterator::collect" and dest is not None and \
+                isinstance(self.operand_value(st, args[0]) if args else None, tuple) and \
+                self.operand_value(st, args[0])[0] == "drained":
+            st.env[dest] = ("collected", self.operand_value(st, args[0])[1])
             return True
         if dfn == "alloc::vec::Vec::<T, A>::drain":
             P = tgt(0)
@@ -584,12 +591,165 @@ class Analyzer:
             if P is not None and dest is not None and (P + ("#len",)) in st.env:
                 st.env[dest + ("#len",)] = st.env[P + ("#len",)]
             return True
+        # ---- texts: character count of a string, byte offsets that are character boundaries -------
+        if dfn == "core::slice::<impl [T]>::iter" and dest is not None:
+            P = tgt(0)
+            if P is not None:
+                st.env[dest] = ("sliceiter", P, self.vlen(st, P))
+            return True
+        if dfn == "core::iter::traits::iterator::Iterator::collect" and dest is not None:
+            v = self.operand_value(st, args[0]) if args else None
+            ga = t["f"].get("ga", [])
+            if isinstance(v, tuple) and v and v[0] == "sliceiter" and len(ga) == 2 and ga[1] == "alloc::string::String" \
+                    and ga[0].startswith("core::slice::iter::Iter<") and ga[0].endswith(" char>"):
+                # one character per element
+                self.new_text(st, dest, v[2])
+            return True
+        if dfn in ("<alloc::string::String as core::ops::deref::Deref>::deref", "alloc::string::String::as_str") and dest is not None:
+            P = tgt(0)
+            if P is not None:
+                st.env[dest] = ("ref", P, False)
+            return True
+        if dfn in ("core::str::<impl str>::strip_prefix", "core::str::<impl str>::strip_suffix") and dest is not None:
+            P = tgt(0)
+            pat = args[1].get("k", {}).get("str") if len(args) > 1 and "k" in args[1] else None
+            n = st.env.get(P + ("#chars",)) if P is not None else None
+            if isinstance(n, Lin) and isinstance(pat, str):
+                self.counter += 1
+                T = ("T", self.counter)
+                self.new_text(st, T, Lin(n.s, n.k - len(pat)))
+                st.env[dest + ("@Some", "0")] = ("ref", T, False)
+            return True
+        if dfn in ("core::str::<impl str>::trim_start", "core::str::<impl str>::trim_end", "core::str::<impl str>::trim") and dest is not None:
+            P = tgt(0)
+            n = st.env.get(P + ("#chars",)) if P is not None else None
+            if isinstance(n, Lin):
+                self.counter += 1
+                T = ("T", self.counter)
+                m = self.fresh(st, "trim", 0, None)
+                st.dbm.assume_le(m, n)
+                self.new_text(st, T, m)
+                st.env[dest] = ("ref", T, False)
+            return True
+        if dfn == "core::str::<impl str>::char_indices" and dest is not None:
+            P = tgt(0)
+            if P is not None and (P + ("#text",)) in st.env:
+                st.env[dest] = ("charidx", P, st.env[P + ("#text",)])
+            return True
+        if dfn == "core::iter::traits::iterator::Iterator::nth" and dest is not None:
+            itp = tgt(0)
+            it = st.env.get(itp) if itp is not None else None
+            k = self.int_of(st, args[1]) if len(args) > 1 else None
+            if itp is not None:
+                self.havoc(st, itp)          # the iterator has advanced
+            if isinstance(it, tuple) and it and it[0] == "charidx" and isinstance(k, Lin) \
+                    and st.env.get(it[1] + ("#text",)) == it[2]:
+                # a fresh CharIndices: the k-th item is (byte offset of character k, character k), present iff k < #chars
+                st.env[dest + ("@Some", "0", "0")] = ("boff", it[1], it[2], k)
+                st.env[dest + ("#guard",)] = ("cmp", "Lt", k, st.env[it[1] + ("#chars",)])
+            return True
+        if dfn in ("core::str::<impl str>::len", "alloc::string::String::len") and dest is not None:
+            P = tgt(0)
+            if P is not None and (P + ("#text",)) in st.env:
+                # the byte length is the offset of the boundary after the last character
+                st.env[dest] = ("boff", P, st.env[P + ("#text",)], st.env[P + ("#chars",)])
+            return True
+        if dfn in ("core::option::Option::<T>::map_or", "core::option::Option::<T>::map", "core::option::Option::<T>::unwrap_or") \
+                and dest is not None:
+            meth = dfn.rsplit("::", 1)[-1]
+            src = self.operand_path(st, args[0])
+            proj = ()
+            if meth != "unwrap_or":
+                proj = self.projection_closure(args[-1])
+            if src is None or proj is None:
+                return True
+            tag = st.env.get(src + ("#tag",))
+            guard = st.env.get(src + ("#guard",))
+            some = st.env.get(src + ("@Some", "0") + proj)
+            if meth == "map":
+                if some is not None:
+                    st.env[dest + ("@Some", "0")] = some
+                if tag is not None:
+                    st.env[dest + ("#tag",)] = tag
+                if guard is not None:
+                    st.env[dest + ("#guard",)] = guard
+                return True
+            dflt = self.operand_value(st, args[1])
+            if tag == "Some" and some is not None:
+                st.env[dest] = some
+            elif tag == "None" and dflt is not None:
+                st.env[dest] = dflt
+            elif guard is not None and some is not None and dflt is not None:
+                st.env[dest] = ("either", guard, some, dflt)
+            return True
+        if dfn == "rustyline::completion::FilenameCompleter::complete_path":
+            pos = self.operand_value(st, args[2]) if len(args) > 2 else None
+            if isinstance(pos, tuple) and pos and pos[0] == "either":
+                # decide both cases of the guarded value separately
+                for truth, v in ((True, pos[2]), (False, pos[3])):
+                    s2 = st.copy()
+                    if self.assume(s2, pos[1], truth):
+                        self.complete_path_contract(s2, bb, tgt(1), v)
+                return True
+            self.complete_path_contract(st, bb, tgt(1), pos)
+            return True
         # unknown call: whatever is reachable through a mutable reference argument may change
         for a in args:
             v = self.operand_value(st, a)
             if isinstance(v, tuple) and v and v[0] == "ref" and (len(v) < 3 or v[2]):
                 self.havoc(st, v[1])
         return True
+
+    def projection_closure(self, o):
+        """the closure operand `o` is |x| x.<fields> (copies only): the field path, else None"""
+        ty = self.local_ty(o) or ""
+        name = None
+        pl = o.get("m") or o.get("c")
+        if pl is not None and not pl["p"]:
+            # the closure value was built by an aggregate statement of this body: find its name
+            for blk in self.body.blocks:
+                for s_ in blk["s"]:
+                    if s_["k"] == "assign" and s_["p"]["l"] == pl["l"] and not s_["p"]["p"] and s_["r"]["k"] == "agg":
+                        name = s_["r"].get("name") or s_["r"].get("variant")
+        cb = self.p.bodies.get(name) if name else None
+        if cb is None or len(cb.blocks) != 1 or cb.blocks[0]["t"]["k"] != "ret":
+            return None
+        src = {2: ()}
+        for s_ in cb.blocks[0]["s"]:
+            if s_["k"] != "assign":
+                continue
+            r = s_["r"]
+            if s_["p"]["p"] or r["k"] != "use" or "k" in r["o"]:
+                return None
+            q = r["o"].get("m") or r["o"].get("c")
+            if q["l"] not in src:
+                return None
+            path = src[q["l"]]
+            for pr in q["p"]:
+                if isinstance(pr, dict) and "f" in pr:
+                    path = path + (str(pr.get("n", pr["f"])),)
+                else:
+                    return None
+            src[s_["p"]["l"]] = path
+        return src.get(0)
+
+    def complete_path_contract(self, st, bb, P, pos):
+        """contract (rustyline 7.1 completion.rs: `&line[..pos]`): pos is a byte offset of `line` on a
+        character boundary, at most line.len()"""
+        tid = st.env.get(P + ("#text",)) if P is not None else None
+        n = st.env.get(P + ("#chars",)) if P is not None else None
+        if tid is None or not isinstance(n, Lin):
+            self.oblige(bb, False, "complete_path on a line the analysis knows nothing about")
+        elif isinstance(pos, Lin):
+            ok = st.dbm.le(pos, Lin("0", 0))
+            self.oblige(bb, ok, "complete_path position 0" if ok else
+                        "complete_path(line, pos) slices line[..pos] by bytes, but pos = %r counts characters of a line of %r "
+                        "characters: inside a multi-byte character (or beyond the end) the slice panics" % (pos, n))
+        elif isinstance(pos, tuple) and pos and pos[0] == "boff" and pos[1] == P and pos[2] == tid:
+            ok = isinstance(pos[3], Lin) and st.dbm.le(pos[3], n)
+            self.oblige(bb, ok, "complete_path position is the byte offset of character %r of a line of %r characters" % (pos[3], n))
+        else:
+            self.oblige(bb, False, "complete_path position %r is not known to be a character boundary of the line" % (pos,))
 
     def _minmax(self, st, dest, meth, a, b):
         if meth == "min":
